@@ -38,6 +38,8 @@ def classify(ctx: HandlerContext) -> Classification:
 
     # Check for output file - return redirect_targets for config rule checking
     output_file = _extract_output_file(tokens)
+    if output_file == "-":  # -O - writes the document to standard output
+        return Classification("allow", description=f"{base} download to stdout")
     if output_file:
         return Classification(
             "allow",
